@@ -1,7 +1,7 @@
 import json
 """Per-property plug-ins: how cases are generated, which extra implementation runs a case
 needs, what makes a case non-trivial, which outcome disagreements the property owns."""
-import copy, json
+import copy, json, re
 from . import gen, tree
 from .gen import Profile, Rng
 
@@ -50,6 +50,11 @@ def fs_safe(c):
     return True
 
 
+def engine_request(c):
+    from .engine import impl_request
+    return impl_request(dict(c, repeat=1))
+
+
 def eval_files(w, c):
     """runs the file exports of implementation and model over a scratch directory; returns (impl, verdict)"""
     from .engine import impl_request
@@ -91,6 +96,32 @@ def default_cases(pid):
                       {"name": "main", "files": [{"path": "b.o"}, {"kind": "pad", "pad_amount": 16, "section": ".data"}]}]},
     ]
     k = 0
+    # pairs of independently valid features that the random generator combines only rarely
+    combos = [
+        ("normal", {"settings": {"single_segment_mode": True, "hardcoded_gp_value": 0x80008000, "subalign": 16},
+                    "segments": [{"name": "boot", "fixed_vram": 0x80000400, "subalign": 32,
+                                  "files": [{"path": "a.o"}, {"kind": "pad", "pad_amount": 8, "section": ".data"}, {"path": "b.o"}]}]}),
+        ("partial", {"settings": {"partial_scripts_folder": "ps", "partial_build_segments_folder": "pb/{version}", "target_path": "rom.elf",
+                                  "d_path": "rom.d", "symbols_header_path": "syms.h", "subalign": 8, "sections_allowlist": [".keepme"]},
+                     "segments": [{"name": "boot", "subalign": None, "keep_sections": [".data"],
+                                   "files": [{"path": "a.o"}, {"kind": "linker_offset", "linker_offset_name": "mid", "section": ".text"},
+                                             {"kind": "pad", "pad_amount": 16, "section": ".data"},
+                                             {"path": "lib/libc.a", "kind": "archive", "subfile": "str.o", "keep_sections": True},
+                                             {"path": "c.o", "section_order": {".rodata": ".text", ".sdata": ".text"}}]},
+                                  {"name": "ovl.title", "files": [{"path": "t.o"}], "exclude_if_all": [["version", "us"], ["debug", "on"]]}]}),
+        ("normal", {"settings": {"segment_start_align": 0x100, "segment_end_align": 0x40, "sections_start_alignment": {".rdata": 0x20}},
+                    "vram_classes": [{"name": "A", "fixed_vram": 0x80100004}, {"name": "B", "follows_classes": ["A"]}],
+                    "segments": [{"name": "a_dbg", "vram_class": "A", "files": [{"path": "d.o"}], "include_if_any": [["debug", "on"]]},
+                                 {"name": "a1", "vram_class": "A", "segment_end_align": None, "files": [{"path": "a1.o"}]},
+                                 {"name": "a2", "vram_class": "A", "files": [{"path": "a2.o"}, {"path": "a3.o"}]},
+                                 {"name": "b1", "vram_class": "B", "sections_subgroups": {".rodata": [".rdata"]},
+                                  "files": [{"path": "b1.o"}, {"kind": "pad", "pad_amount": 64, "section": ".rdata"},
+                                            {"kind": "linker_offset", "linker_offset_name": "b_rdata", "section": ".rdata"}]}]}),
+    ]
+    for mode, doc in combos:
+        out.append({"id": "combo%d" % k, "seed": 31 + k, "stream": "valid", "opts": [["version", "us"]], "mode": mode, "version_comment": False,
+                    "link": mode == "normal", "doc": doc})
+        k += 1
     for d in base:
         for st in (None, {}, {"target_path": "rom.elf", "d_path": "rom.d", "symbols_header_path": "syms.h"}):
             for mode in ("normal", "partial"):
@@ -953,6 +984,20 @@ class C15(Property):
                 res.update(status="violation", why="a fresh process generated different outputs: " +
                            ",".join(x for x in OUT_KEYS if impl.get(x) != impl2.get(x)))
                 return res
+        # regenerating in place: the same files whether the directory was empty or held longer files at the same paths
+        if fs_safe(c):
+            freq = impl_request(dict(c, repeat=1))
+            freq["op"] = "files"
+            freq["out"] = "out/script.ld"
+            f1 = w.h.run(freq)
+            if f1.get("outcome") == "ok" and f1.get("files"):
+                freq2 = dict(freq, pre=[[p, t + "\n/* stale tail of a longer previous generation */\n" * 3] for p, t in f1["files"].items()])
+                f2 = w.h.run(freq2)
+                if f2.get("outcome") != "ok" or f2.get("files") != f1.get("files"):
+                    diff = sorted(p for p in set(f1["files"]) | set(f2.get("files") or {}) if f1["files"].get(p) != (f2.get("files") or {}).get(p))
+                    res.update(status="violation", why="regenerating over longer files at the same paths gives other files than generating into an "
+                               "empty directory: " + ",".join(diff)[:200])
+                    return res
         # the option *map* decides, not the order in which distinct options were supplied
         last = {}
         for k, val in c["opts"]:
@@ -989,6 +1034,11 @@ HOSTILE_SNIPPETS = [
     "",
     "~\n",
     "segments:\n\t- name: a\n",
+    # sub-group chains and a section_order that closes them into a cycle (each acyclic on its own)
+    "segments: [{name: a, sections_subgroups: {.text: [.data], .data: [.rodata]}, files: [{path: a.o, section_order: {.text: .rodata}}]}]\n",
+    "segments: [{name: a, sections_subgroups: {.text: [.data], .data: [.rodata], .rodata: [.sdata]}, files: [{path: a.o, section_order: {.text: .sdata}}]}]\n",
+    "segments: [{name: a, sections_subgroups: {.text: [.rodata]}, files: [{kind: group, files: [{path: a.o, section_order: {.text: .rodata}}]}]}]\n",
+    "settings: {sections_subgroups: {.bss: [.sbss], .sbss: [.scommon]}}\nsegments: [{name: a, files: [{path: a.o, section_order: {.bss: .scommon, .data: .bss}}]}]\n",
     # makerom names are built by cutting the section / segment name: multi-byte characters at every cut position
     "settings: {linker_symbols_style: makerom, alloc_sections: [.\u00f1data, .text]}\nsegments: [{name: a, files: [{path: a.o}]}]\n",
     "settings: {linker_symbols_style: makerom, noload_sections: [\u00e9, .\U0001F600x]}\nsegments: [{name: \u00e9, files: [{path: a.o}]}]\n",
@@ -1030,6 +1080,16 @@ class C19(Property):
                     c["doc"]["settings"] = {}
                 st = c["doc"]["settings"]
                 st["sections_subgroups"] = r.pick([{".text": [".text"]}, {".a": [".b"], ".b": [".a"]}, {".data": [".rdata"], ".rdata": [".data2"], ".data2": [".rdata"]}])
+            if r.chance(0.25):
+                # a sub-group chain of 1..4 hops closed into a cycle by one file's section_order (each part acyclic alone)
+                segs = [sg for sg in (c["doc"].get("segments") or []) if isinstance(sg, dict)]
+                if segs:
+                    sg = r.pick(segs)
+                    chain = r.sample([".text", ".data", ".rodata", ".sdata", ".rdata", ".ctor", "mysec"], 2 + r.below(4))
+                    sg["sections_subgroups"] = {chain[i]: [chain[i + 1]] for i in range(len(chain) - 1)}
+                    sg["alloc_sections"] = [chain[0]]
+                    leaf = {"path": "cyc.o", "section_order": {chain[0]: chain[-1]}}
+                    sg["files"] = [leaf if r.chance(0.5) else {"kind": "group", "files": [leaf]}]
             if r.chance(0.2):
                 for sg in (c["doc"].get("segments") or []):
                     if isinstance(sg, dict) and r.chance(0.5):
@@ -1108,7 +1168,13 @@ class C19(Property):
             res.update(status="corr", why="model %s/%s vs implementation %s/%s" % (v.get("model_outcome"), v.get("model_err"), impl.get("outcome"), impl.get("err_kind")))
             return res
         res.update(status="ok", why="")
-        if impl.get("outcome") == "ok" and c.get("link"):
+        leftover = False
+        if impl.get("outcome") == "ok" and c["stream"] == "valid" and not any("{" in v or "}" in v for _, v in c["opts"]):
+            # a terminated {key} marker that survives expansion is not a name the document wrote: the script must still be accepted
+            texts = [impl.get("script") or ""] + [t for _, t in impl.get("partials", [])]
+            leftover = any(re.search(r"\{[^{}/\s]*\}", line) for t in texts for line in t.split("\n")
+                           if line.strip() not in ("{", "}") and " : { *(" not in line)
+        if impl.get("outcome") == "ok" and (c.get("link") or leftover):
             bad = link_syntax_check(c, impl)
             res["linked"] = bad is not None
             if bad:
@@ -1132,7 +1198,8 @@ def link_syntax_check(c, impl):
         bad = []
         for name, script in scripts:
             ins = script_inputs(script)
-            if any(not ldlab.SAFE_PATH.match(p) or p.startswith("/") or ".." in p.split("/") or (m and not ldlab.SAFE_MEMBER.match(m)) for p, m in ins):
+            if any(not ldlab.SAFE_PATH.match(p.replace("{", "").replace("}", "")) or p.startswith("/") or ".." in p.split("/")
+                   or (m and not ldlab.SAFE_MEMBER.match(m)) for p, m in ins):
                 return None
             objs = []
             seen = set()
@@ -1288,7 +1355,8 @@ class ImageProperty(Property):
     checks = ()
 
     def base_profile(self, r, **kw):
-        base = dict(p_braces=0.0, p_missing_key=0.0, p_toplevel=0.0, p_cond=0.2, p_partial=0.0, p_single=0.1, dpath=0.1, header=0.1)
+        # (partial-mode cases are compared at text level only; two-step links are C11's)
+        base = dict(p_braces=0.0, p_missing_key=0.0, p_toplevel=0.0, p_cond=0.2, p_partial=0.12, p_single=0.1, dpath=0.1, header=0.1, p_gp=0.3)
         base.update(kw)
         return Profile(**base)
 
@@ -1410,6 +1478,33 @@ class C05(ImageProperty):
         bad, kf = image.check_symbols(L, info)
         r = image.check_brackets_and_order(L, info, L.main_stmts)
         return bad + r["C05"], kf
+
+    def evaluate(self, w, c):
+        res = ImageProperty.evaluate(self, w, c)
+        if res.get("status") not in ("ok", "corr") or res.get("impl_outcome") != "ok":
+            return res
+        # completeness at text level, in every mode: each symbol the property lists is assigned by the main script or by a partial script
+        impl = w.h.run(engine_request(c))
+        if impl.get("outcome") != "ok":
+            return res
+        info = w.d.ask({"op": "docinfo", "case": {"id": c["id"], "doc": tree.to_proto(c["doc"]), "opts": c["opts"]}})
+        if not info or "segments" not in info:
+            return res
+        text = "\n".join([impl.get("script") or ""] + [t for _, t in impl.get("partials", [])])
+        assigned = set(re.findall(r"^\s*(?:PROVIDE\(|HIDDEN\(|PROVIDE_HIDDEN\()?([^\s=()]+) = ", text, re.M))
+        missing = []
+        for s in info["segments"]:
+            if not s["emitted"]:
+                continue
+            want = list(s.get("offsets") or [])
+            for sc in s["sections"]:
+                want += [sc["start"], sc["end"], sc["size"]]
+            if not info["single"]:
+                want += [s["rom_start"], s["rom_end"], s["rom_size"], s["vram"], s["vram_end"], s["vram_size"]]
+            missing += [n for n in want if n not in assigned]
+        if missing:
+            res.update(status="violation", why="symbols the property lists are assigned by no script (%s mode): %s" % (c["mode"], ", ".join(missing[:6])))
+        return res
 
 
 class C09(ImageProperty):
